@@ -38,6 +38,9 @@ def engines():
     e = engine("lock-previous", [in_a(), in_b()], [out_y(lock_prev=True, default="1/8", lock_range=True)],
                [block("rb", [rule(P("a", "lo"), [C("y", "s")]), rule(P("b", "hi"), [C("y", "l")]), rule(P("a", "hi", "very"), [C("y", "m")])])])
     es.append(e)
+    # Function terms hold a reference to their engine and read its variables by name: a copy must read its own
+    from .catalogue import catalogue
+    es.append(copy.deepcopy(next(e for e in catalogue(True) if e["name"] == "ts-function")))
     for e in es:
         e["coarse"] = True
     return es
@@ -55,7 +58,9 @@ def ed(kind, a=1, b=1, c=1, x=None, ox=None, s="", os="", n=0, on=0):
 def edit_engines():
     """engines with the edits of their configuration that a user may make between two process() calls (1-based indices)"""
     es = engines()
-    mam, chained, sug, lock = es
+    mam, chained, sug, lock = es[:4]
+    es[4]["edits"] = [ed("weight", 1, 2, x=X("1"), ox=X("1/2")), ed("oterm-p", 1, 1, 1, x=X("1"), ox=X("-1/2")), ed("defuzz-cls", 2, s="WeightedAverage", os="WeightedSum")]
+    # (not: disabling output f - a disabled variable keeps its value (C12), and the Function term of g reads it: by design the step then depends on history)
     mam["edits"] = [ed("weight", 1, 2, x=X("1/4"), ox=X("1/2")), ed("implication", 1, s="AlgebraicProduct", os="Minimum"), ed("conjunction", 1, s="AlgebraicProduct", os="Minimum"),
                     ed("aggregation", 1, s="BoundedSum", os="Maximum"), ed("defuzz-res", 1, n=4, on=8), ed("defuzz-cls", 1, s="MeanOfMaximum", os="Centroid"),
                     ed("oterm-p", 1, 1, 2, x=X("3/8"), ox=X("1/4")), ed("iterm-p", 1, 1, 2, x=X("1/8"), ox=X("1/4")), ed("in-enabled", 2), ed("out-enabled", 1), ed("block-enabled", 1),
